@@ -69,6 +69,18 @@ func main() {
 		}
 		return
 	}
+	if os.Getenv("HDRCHECK_INVENTORY") != "" {
+		// prints the function inventory of the tree (an/inventory.txt is this list for the tree the rules were confirmed against)
+		p, err := an.Load(an.LoadOpts{Dir: *repo})
+		if err != nil {
+			fmt.Println("LOAD ERROR:", err)
+			os.Exit(2)
+		}
+		for _, n := range p.DeclNames() {
+			fmt.Println(n)
+		}
+		return
+	}
 	if *describeFlag {
 		os.Exit(describe(*repo))
 	}
@@ -81,7 +93,7 @@ func main() {
 		return
 	}
 	if *dump != "" {
-		p, err := an.Load(an.LoadOpts{Dir: *repo})
+		p, err := an.LoadNormalized(*repo, nil, false)
 		if err != nil {
 			fmt.Println("LOAD ERROR:", err)
 			os.Exit(2)
@@ -137,7 +149,7 @@ func main() {
 	}
 
 	start := time.Now()
-	p, err := an.Load(an.LoadOpts{Dir: *repo, Full: false})
+	p, err := an.LoadNormalized(*repo, nil, false)
 	if err != nil {
 		// a tree that does not type-check cannot be analysed: the check fails.
 		fmt.Println("LOAD ERROR:", err)
@@ -145,6 +157,12 @@ func main() {
 			fmt.Printf("VIOLATION property=%s replay=%s\n", id, "/dev/null")
 		}
 		os.Exit(1)
+	}
+	if p.Norm != nil && len(p.Norm.Notes) > 0 {
+		fmt.Printf("normalisation (functions outside the confirmed inventory are inlined before the analysis): %d round(s)\n", p.Norm.Rounds)
+		for _, n := range p.Norm.Notes {
+			fmt.Println("  " + n)
+		}
 	}
 	exit := 0
 	for _, id := range ids {
